@@ -40,6 +40,9 @@ def cases(tier, seed):
                 variants = [({'A': None}, 'grad')]
             for tr, api in variants:
                 cs.append({'scen': 'ad_grad', 's': dict(base, tracked=tr, api=api)})
+    # objects made by factories: every core is its own variable (also when mode sizes repeat)
+    for kind, N in (('ones', [2, 2]), ('ones', [3, 3, 2]), ('zeros', [2, 2]), ('zeros', [2, 3, 2]), ('eye', [2, 2]), ('eye', [2, 3])):
+        cs.append({'scen': 'ad_factory', 's': {'kind': kind, 'N': N}})
     for sin, sout, rank, batch in [([2], [2], [1, 1], []), ([2, 2], [1, 2], [1, 2, 1], [2]), ([2, 1], [2, 2], [1, 2, 1], [])] + ([([2, 2, 2], [1, 2, 1], [1, 2, 2, 1], [2, 1])] if th else []):
         cs.append({'scen': 'ad_layer', 's': {'size_in': sin, 'size_out': sout, 'rank': rank, 'batch': batch}})
         cs.append({'scen': 'ad_layer', 's': {'size_in': sin, 'size_out': sout, 'rank': rank, 'batch': batch, 'eval': True}})
@@ -53,6 +56,8 @@ def opts(tier):
 
 def sig(case, label):
     s = case['s']
+    if case['scen'] == 'ad_factory':
+        return 'ad_factory:%s:%s' % (s['kind'], label.rstrip('0123456789').rstrip('_'))
     if case['scen'] == 'ad_layer':
         return 'ad_layer:%s' % label.rstrip('0123456789').rstrip('_')
     return 'ad_grad:%s:%s:%s:%s' % (s['expr'], '+'.join(sorted(s['tracked'])), s.get('api', 'grad'), label.rstrip('0123456789').rstrip('_'))
